@@ -15,7 +15,8 @@ PROPERTY = 'C13'
 RULE = ('cases are edit histories in an operation DSL (cell assignment, add/set/remove/rename/move of objects and '
         'properties, remove_empty_*, union_update / intersection_update with and without ignore_conflicts, |=, &=, '
         'reads d[o, p] and d[0..2]). (1) Bounded exhaustive part: every visible definition over the name universe '
-        '{a,b} x {x,y} (quick; 113 states) or {a,b,c} x {x,y} and {a,b} x {x,y,z} (thorough; 1160 states each) is '
+        '{a,b} x {x,y} and {a,b} x {a,y} (quick; 113 states each; the second uses one string on both axes) or '
+        '{a,b,c} x {x,y}, {a,b} x {x,y,z} and {a,b,c} x {a,y} (thorough; 1160 states each) is '
         'built by an actual history, then EVERY operation instance over the universe is applied (argument lists = '
         'every ordered list without repeats plus lists with a repeat; every other-definition over the universe with '
         'and without ignore_conflicts; rename targets inside the universe incl. old == new; move indexes 0..len-1), '
@@ -31,8 +32,9 @@ RULE = ('cases are edit histories in an operation DSL (cell assignment, add/set/
         're-adding the same name, or a rejected call.')
 ASSUMPTIONS = ['ordered-table model vlib/defmodel.py written from the property statement and the doctests']
 
-UNIVERSES = {'quick': [(('a', 'b'), ('x', 'y'))],
-             'thorough': [(('a', 'b', 'c'), ('x', 'y')), (('a', 'b'), ('x', 'y', 'z'))]}
+UNIVERSES = {'quick': [(('a', 'b'), ('x', 'y')), (('a', 'b'), ('a', 'y'))],
+             'thorough': [(('a', 'b', 'c'), ('x', 'y')), (('a', 'b'), ('x', 'y', 'z')), (('a', 'b', 'c'), ('a', 'y'))]}
+# the universes with 'a' on both axes: a Definition (unlike a Context) may use one string as object AND property name
 
 
 def arg_lists(names):
@@ -203,8 +205,8 @@ def bfs_task(task, ctx):
 # ---------------------------------------------------------------------------
 # Hypothesis state machine
 
-POOL_O = [f'o{k}' for k in range(8)]
-POOL_P = [f'p{k}' for k in range(8)]
+POOL_O = [f'o{k}' for k in range(8)] + ['p0']       # 'p0', 'o0', 'o1' occur on both axes
+POOL_P = [f'p{k}' for k in range(8)] + ['o0', 'o1']
 FRESH = [f'n{k}' for k in range(6)]
 onames = st.sampled_from(POOL_O + FRESH[:3])
 pnames = st.sampled_from(POOL_P + FRESH[3:])
@@ -301,6 +303,16 @@ def make_machine(ctx):
 
         @rule(which=st.sampled_from(['remove_empty_objects', 'remove_empty_properties']))
         def remove_empty(self, which):
+            self.do([which])
+
+        @rule(os=st.lists(onames, min_size=3, max_size=5, unique=True), ps=st.lists(pnames, min_size=3, max_size=5, unique=True),
+              which=st.sampled_from(['remove_empty_objects', 'remove_empty_properties']))
+        def sparse_then_remove_empty(self, os, ps, which):
+            # many empty rows / columns at once, then their removal (empties may outnumber the rest)
+            for o in os:
+                self.do(['add_object', o, []])
+            for p in ps:
+                self.do(['add_property', p, []])
             self.do([which])
 
         @rule()
